@@ -218,6 +218,23 @@ def stepCore (st : St) (pre post : List String) : St × Verdict :=
       | some _, none => (st, .diff s!"reopen {which}: model fails to load, implementation gives {post}")
       | _, _ => (st, .bad "reopen fields")
     | _ => (st, .bad "reopen")
+  -- the running store is replaced by a new object loaded at a retained version below the newest one on disk (restart
+  -- after a crash between the substore commits and the commit-info write); the history then continues from it, and
+  -- what it re-commits must equal what was committed before
+  | ["reopenat", v] =>
+    match v.toInt?, post with
+    | some v, [ver, hash] =>
+      match parseCID ver hash, loadMS H st.shadow st.names v with
+      | some cid, some m2 =>
+        let st' := { st with model := some m2, peek := some m2, peekVer := v, orig := st.obs }
+        if m2.lastCommitID ≠ cid then (st', .diff s!"reopenat {v}: model lastCommitID={m2.lastCommitID.version} {renderHash m2.lastCommitID.hash} impl={post}")
+        else match st.obs.find? (·.1 = v) with
+          | some e => if e.2.cid = cid then (st', .ok) else (st', pf st "reopen-lastcommitid" s!"expected {e.2.cid.version} {renderHash e.2.cid.hash}, reopened {ver} {hash}")
+          | none => (st', pf st "reopen-unknown-version" s!"version {v}")
+      | some _, none => (st, .diff s!"reopenat {v}: model fails to load")
+      | _, _ => (st, .bad "reopenat fields")
+    | some v, _ => (st, pf st "reopen-fails" s!"version {v} was committed but cannot be reopened: {post}")
+    | _, _ => (st, .bad "reopenat")
   | ["rstate", _, store] =>
     match post, st.peek with
     | [iver, ihash, dump], some m =>
